@@ -515,7 +515,17 @@ func collectCandidates(results []InstResult) []*candidate {
 			key := r.Inst.Harness + "|" + o.ID + "|" + kfid
 			limit := 3
 			if kfid != "" {
-				limit = 2
+				// a finding is re-confirmed from several different instances (one model per instance, at most two per element
+				// type, eight in all): a single unlucky model (e.g. one the native stand-in for an uninterpreted function maps to
+				// the same value) must not leave a listed finding unreported
+				dt, _ := r.Inst.Cfg["dtype"].(string)
+				ik, dk := key+"|inst|"+r.Inst.Name, key+"|dt|"+dt
+				if seen[ik] >= 1 || seen[dk] >= 2 {
+					continue
+				}
+				seen[ik]++
+				seen[dk]++
+				limit = 8
 			}
 			if seen[key] >= limit {
 				continue
